@@ -148,6 +148,14 @@ where
 	let mut context = w.get_private_context(keychain_mask, sl.id.as_bytes())?;
 	check_ttl(w, &sl)?;
 	if sl.state == SlateState::Invoice2 {
+		// The slate's state is supplied by the counterparty. An invoice is finalized by its
+		// issuer, who does not know the fee until the payer's reply names it, so the issuer's
+		// context records none. A context that records a fee belongs to a transaction this
+		// wallet is PAYING: it must be finalized by the Standard branch (fee restored from the
+		// context, payment proof verified), whatever state the reply claims.
+		if context.fee.is_some() {
+			return Err(Error::SlateState);
+		}
 		// Add our contribution to the offset
 		sl.adjust_offset(&w.keychain(keychain_mask)?, &context)?;
 
